@@ -498,6 +498,15 @@ class Model:
         return Call('rm_directory', kw, effect)
 
     def op_add_link(self, op):
+        if op.get('symsrc') and self.rr:
+            # the old path names a Rock Ridge symlink: nothing to share, the call must be refused
+            syms = sorted(p for p, e in self.t['iso'].items() if e['type'] == 'sym')
+            if syms:
+                gid, parents = self._parents(op, NSBIT['iso'])
+                if 'iso' in parents and self.iso_file_ok_depth(parents['iso']):
+                    nm = self._new_names(dict(op, k='bad'), False)
+                    return Call('add_hard_link', {'iso_old_path': syms[op['symsrc'] % len(syms)], 'iso_new_path': join(parents['iso'], nm['iso']), 'rr_name': nm['rr']},
+                                lambda: None, note=('must-refuse', 'old-path-is-a-symlink'))
         b, ons, opath = self._blob_name(op)
         tns = [ns for ns in self.enabled()][op.get('to', 0) % len(self.enabled())]
         gid, parents = self._parents(op, NSBIT[tns])
@@ -528,8 +537,8 @@ class Model:
             e = {'type': 'file', 'blob': b.id, 'hidden': False}
             if tns == 'iso':
                 e['rr'] = nm['rr'] if self.rr else None
-                # documented: link carries the old record's mode when linked from ISO9660; otherwise 0
-                e['mode'] = src_mode if self.rr else None
+                # a link carries the old record's mode when linked from ISO9660; otherwise that of a file added without a mode
+                e['mode'] = (src_mode if ons == 'iso' else 0o100444) if self.rr else None
             self.t[tns][newpath] = e
             b.names.add((tns, newpath))
             self.classes.add('hard-link')
@@ -1198,6 +1207,7 @@ class BadCatalogue:
             ('add_hard_link/dup-new-joliet', 'add_hard_link', True, self.link_dup_new_in('jol')),
             ('add_hard_link/dup-new-udf', 'add_hard_link', True, self.link_dup_new_in('udf')),
             ('add_directory/relocation-name-taken', 'add_directory', True, self.add_dir_reloc_name_taken),
+            ('add_hard_link/old-path-is-a-symlink', 'add_hard_link', False, self.link_old_is_symlink),
         ]
         return rows
 
@@ -1218,6 +1228,13 @@ class BadCatalogue:
         if self.m.rr:
             kw['rr_name'] = nm['rr']
         return 'add_hard_link', kw
+
+    def link_old_is_symlink(self, op):
+        if not self.m.rr:
+            raise Skip('needs Rock Ridge')
+        d = self.existing('iso', ('sym',), op)
+        nm, paths = self.fresh(op)
+        return 'add_hard_link', {'iso_old_path': d, 'iso_new_path': paths['iso'], 'rr_name': nm['rr']}
 
     def add_negative_length(self, op):
         nm, paths, kw = self.base_add(op, False)
